@@ -350,7 +350,16 @@ static void slowWriteBlock() {
   record("edit", "", "write blocks in the kernel");
   g_slowWrite.store(1);
   struct timespec ts = {0, 50000};
+  struct timespec t0;
+  __real_clock_gettime(CLOCK_MONOTONIC, &t0);
   while (g_slowWrite.load() != 3) {
+    // safety valve (real time): never keep a run hanging on this hand-shake
+    struct timespec t1;
+    __real_clock_gettime(CLOCK_MONOTONIC, &t1);
+    if (t1.tv_sec - t0.tv_sec > 30) {
+      record("edit", "", "blocked write gave up waiting for a signal");
+      break;
+    }
     // a main thread already asleep in its (untimed) wait has to look again
     if (long addr = g_futexWaitAddr.load()) {
       // (libstdc++ waits on a shared futex; wake either kind)
